@@ -1120,9 +1120,16 @@ pub fn replay_validate(case: &Value, rep: &mut Report, rng: &mut Rng) {
     let obj_name = str_of(ds, "obj");
     let id = format!("validate:n{}len{}{}tol{}{}seed{}", n, len, rule, tol, obj_name, ds["seed"]);
     let softmax = rule == "argmax";
-    let arch = json!({"input": [len], "layers": [{"kind": "dense", "out": len, "act": if softmax { "softmax" } else { "linear" }, "bias": false}],
+    // every other case builds the output layer with the OTHER activation and switches it with set_activation: what
+    // validate scores by is the activation the layer has NOW
+    let switched = (n + len + usize_of(ds, "seed")) % 2 == 1;
+    let built_softmax = if switched { !softmax } else { softmax };
+    let arch = json!({"input": [len], "layers": [{"kind": "dense", "out": len, "act": if built_softmax { "softmax" } else { "linear" }, "bias": false}],
                       "objective": {"kind": obj_name}});
     let mut net = nets::build(&arch);
+    if switched {
+        net.set_activation(0, crate::layers::activation(if softmax { "softmax" } else { "linear" }));
+    }
     if let neurons::network::Layer::Dense(d) = &mut net.layers[0] {
         let eye: Vec<Vec<f32>> = (0..len).map(|i| (0..len).map(|j| if i == j { 1.0 } else { 0.0 }).collect()).collect();
         verif::set_dense(d, eye, None);
